@@ -272,6 +272,7 @@ def r2_no_transform_after_restore(ctx, rep):
         raise AnalysisError("line_to_variables: the QUOTES_RE.sub restoration of `initial` was not found")
     trans: Set[str] = set()
     bad_replace = []
+    seen_params: Set[Tuple[int, str]] = set()
 
     def visit(e: ast.AST, h, lit_names: Set[str], depth: int = 0) -> bool:
         """does `e` carry literal text?  every call applied to literal text is recorded as a transformation"""
@@ -281,6 +282,13 @@ def r2_no_transform_after_restore(ctx, rep):
             return True
         if isinstance(e, ast.Name):
             if e.id in lit_names:
+                # a parameter that carries literal text may be re-assigned from itself (p = f(p)): further transformations
+                key = (id(h), e.id)
+                if key not in seen_params:
+                    seen_params.add(key)
+                    for _, v in astq.assignments(h, e.id):
+                        if v is not None and any(isinstance(x, ast.Name) and x.id == e.id for x in ast.walk(v)):
+                            visit(v, h, lit_names, depth + 1)
                 return True
             vals = [v for _, v in astq.assignments(h, e.id) if v is not None]
             plain = [v for v in vals if not any(isinstance(x, ast.Name) and x.id == e.id for x in ast.walk(v))]
@@ -318,7 +326,7 @@ def r2_no_transform_after_restore(ctx, rep):
 
     for h, c in subs:
         visit(c.args[0], h, set())
-    ok = trans == {"NBSP_RE.sub", ".replace"} and not bad_replace
+    ok = trans <= {"NBSP_RE.sub", ".replace"} and not bad_replace
     rep.ob("line_to_variables literal transformations", ok,
            "restored literal text is only changed by NBSP_RE (repeated blanks -> nbsp) and backslash doubling"
            if ok else f"restored literal text is transformed by {sorted(trans)} {bad_replace}", py.nloc(ltv))
